@@ -72,11 +72,13 @@ def detect(ctx, n):
     writes = [e for e in ev if e[1] == "write"]
     renames = [e for e in ev if e[1] == "rename"]
     variant = "unknown"
-    if len(opens) == 1 and len(writes) == n:
-        if opens[0][2] == fbase and not renames and names == ["stat", "open"] + ["write"] * n + ["close"]:
+    nchunks = len(row_bytes(ctx, n).splitlines())
+    info["chunks"] = nchunks
+    if len(opens) == 1 and len(writes) == nchunks:
+        if opens[0][2] == fbase and not renames and names == ["stat", "open"] + ["write"] * nchunks + ["close"]:
             variant = "inplace"
         elif opens[0][2] != fbase and len(renames) == 1 and tuple(renames[0][2]) == (opens[0][2], fbase) \
-                and names == ["stat", "open"] + ["write"] * n + ["close", "rename"]:
+                and names == ["stat", "open"] + ["write"] * nchunks + ["close", "rename"]:
             ev2, _, _ = solo(ctx, n, "det2")
             o2 = [e for e in ev2 if e[1] == "open"]
             # second process id differs only through os.getpid()/random names
@@ -97,7 +99,7 @@ def detect(ctx, n):
             info["tmp_names"] = [opens[0][2], o2[0][2] if o2 else None, o3[0][2] if o3 else None]
     # validation on read: offer a file holding only the first row
     table = cc.correct_table(n)
-    ev3, res3, err3 = solo(ctx, n, "det4", prefill=row_bytes(ctx, n)[:cc.ROW])
+    ev3, res3, err3 = solo(ctx, n, "det4", prefill=b"".join(row_bytes(ctx, n).splitlines(keepends=True)[:max(1, len(row_bytes(ctx, n).splitlines()) - n + 1)]))
     validate = any(e[1] == "open" for e in ev3)
     info["validate"] = validate
     info["variant"] = variant
@@ -115,8 +117,8 @@ def row_bytes(ctx, n):
         from tsdate import prior
         prior.ConditionalCoalescentTimes(n)
         b = open(final_path(n), "rb").read()
-        if len(b) != cc.ROW * n:
-            raise harness.MachineryError(f"cache file has {len(b)} bytes, expected {cc.ROW * n}")
+        if len(b.splitlines()) < n:
+            raise harness.MachineryError(f"cache file has {len(b.splitlines())} lines, expected at least {n}")
         _ROWS[n] = b
     return _ROWS[n]
 
@@ -160,7 +162,7 @@ def replay_behaviour(ctx, n, hist, tag):
                 out["used"][p] = repr(w.errors[p])
             elif w.at[p][0] == "finished":
                 out["pc"][p] = "done"
-                out["used"][p] = cc.chunks_of_table(w.results.get(p), correct)
+                out["used"][p] = cc.chunks_of_table(w.results.get(p), correct, header_chunks=len(cbytes.splitlines()) - n)
             else:
                 out["pc"][p] = "at:" + w.at[p][0]
         return out
@@ -253,7 +255,9 @@ def run(ctx):
                 "interleaved")
     ctx.assumptions = ["threads with gated fs calls emulate processes (os.getpid is shimmed per process)",
                        "a crashed writer leaves exactly the bytes it had written (any prefix is covered)"]
-    variant, validate, info = detect(ctx, K)
+    n_rows = K
+    variant, validate, info = detect(ctx, n_rows)
+    K = info["chunks"]  # chunks of the model = lines the code writes (rows, plus a header if any)
     ctx.extra["detected_variant"] = variant
     ctx.extra["detected_validate"] = validate
     ctx.extra["solo_events"] = info["events"]
@@ -268,7 +272,7 @@ def run(ctx):
         hist = parse_hist(r.error_trace)
         if not hist:
             raise harness.MachineryError("cannot read the counterexample behaviour from TLC's error trace")
-        out = replay_behaviour(ctx, K, hist, "cex")
+        out = replay_behaviour(ctx, n_rows, hist, "cex")
         ctx.traces += 1
         ctx.evaluations += 1
         ctx.sample({"kind": "TLC counterexample replayed", "violated": r.violated, "behaviour": hist, "real": out})
@@ -278,7 +282,7 @@ def run(ctx):
                and u != list(range(1, K + 1))}
         if bad:
             ctx.nontriv("cex")
-            ctx.violation(f"C36/schedule/{mvar}/{r.violated}", {"kind": "schedule", "K": K, "hist": hist},
+            ctx.violation(f"C36/schedule/{mvar}/{r.violated}", {"kind": "schedule", "K": K, "n": n_rows, "hist": hist},
                           f"protocol '{mvar}' (validate={validate}) violates {r.violated}; replaying TLC's "
                           f"counterexample on the real code: processes {sorted(bad)} ended with {bad}",
                           subcheck="schedule")
@@ -299,11 +303,11 @@ def run(ctx):
         ctx.rng.shuffle(behs)
         behs = behs[: 150 if q else 1500]
         for i, b in enumerate(behs):
-            out = replay_behaviour(ctx, K, b["hist"], f"beh")
+            out = replay_behaviour(ctx, n_rows, b["hist"], f"beh")
             ctx.traces += 1
             ctx.evaluations += 1
             if out.get("mismatch"):
-                ctx.violation(f"C36/schedule/{mvar}/code-leaves-protocol", {"kind": "schedule", "K": K, "hist": b["hist"]},
+                ctx.violation(f"C36/schedule/{mvar}/code-leaves-protocol", {"kind": "schedule", "K": K, "n": n_rows, "hist": b["hist"]},
                               "the code's file-system calls leave the protocol of Cache.tla: " + out["mismatch"],
                               subcheck="schedule")
                 continue
@@ -322,14 +326,14 @@ def run(ctx):
                 safe = all(out["used"][p] == list(range(1, K + 1)) for p in out["used"] if out["pc"][p] == "done") \
                     and "error" not in out["pc"].values()
                 if not safe:
-                    ctx.violation(f"C36/schedule/{mvar}/Safe-on-code", {"kind": "schedule", "K": K, "hist": b["hist"]},
+                    ctx.violation(f"C36/schedule/{mvar}/Safe-on-code", {"kind": "schedule", "K": K, "n": n_rows, "hist": b["hist"]},
                                   f"replayed behaviour ends with {out} on the code, model says {b}", subcheck="schedule")
                 else:
                     raise harness.MachineryError(f"code and Cache.tla disagree on a safe behaviour: code {out} model {b}")
             if i < 2:
                 ctx.sample({"kind": "behaviour replayed", "hist": b["hist"], "real": out})
     for n in ([10] if q else [10, 20]):
-        size = cc.ROW * n
+        size = len(row_bytes(ctx, n))
         offs = list(range(0, size + 1)) if not q else sorted(set(range(0, size + 1, 3)) | {size, size - 1, 1})
         crash_sweep(ctx, n, variant, info, offs)
 
@@ -339,7 +343,7 @@ def replay(ctx, body):
     import tsdate  # noqa: F401
     inst = body["instance"]
     if inst["kind"] == "schedule":
-        out = replay_behaviour(ctx, inst["K"], inst["hist"], "rp")
+        out = replay_behaviour(ctx, inst.get("n", inst["K"]), inst["hist"], "rp")
         K = inst["K"]
         bad = {p: u for p, u in out.get("used", {}).items() if out["pc"][p] in ("done", "error") and u != list(range(1, K + 1))}
         ctx.traces += 1
